@@ -10,7 +10,9 @@
                          ids / payloads / members, garbage, swaps, truncation, extension), for every payload it
                          holds at least one honest signature for  *)
 EXTENDS BcastDKG
-CONSTANTS MCCfgs, Bodies, MaxFSig, MaxB, Lists, BadId
+CONSTANTS MCCfgs, Bodies, MaxFSig, MaxB, Lists, BadId,
+          Conc       \* 0: requests of faulty members are served one at a time (FSig);  k > 0: up to k of them are inside
+                     \* handleSigRequest at the same time (FCall / FLin / FRecord / FRet instead of FSig)
 VARIABLES nb, nf       \* client runs started, requests of faulty members granted
 mcvars == <<vars, nb, nf>>
 Ids == Allowed \cup {BadId}
@@ -51,7 +53,12 @@ MCNext ==
               /\ ~({g \in client[h][s].got : g.by \in Honest} \subseteq known)
               /\ FRecv(h, s, f, ClientList(h, s))
         \/ \E h \in Honest, s \in Sessions : nb < MaxB /\ BEnd(h, s) /\ UNCHANGED nf
+        \/ \E f \in Faulty, m \in Honest, s \in Sessions, id \in Allowed, pl \in Payloads \ {Junk} :
+              /\ Conc > 0 /\ nf < MaxFSig /\ nf' = nf + 1                      \* (here nf counts requests made)
+              /\ \E k \in 1..Conc : FCall(k, f, m, s, id, pl)
+        \/ \E p \in pend : UNCHANGED nf /\ (FLin(p) \/ FRecord(p) \/ FRet(p))
         \/ \E f \in Faulty, m \in Honest, s \in Sessions, id \in Ids, pl \in Payloads :
+              /\ Conc = 0
               /\ nf < MaxFSig /\ SigOutcome(m, s, f, id, pl) = "ok"
               /\ [req |-> f, id |-> id, pl |-> pl] \notin dedup[m][s]
               /\ FSig(f, m, s, id, pl) /\ nf' = nf + 1
